@@ -32,15 +32,21 @@ def to_smt2(ob):
 def _solve(job):
     name, text, timeout_ms, seed = job
     t0 = time.time()
+    res, detail = 'unknown', None
     try:
-        s = z3.Solver()
-        s.set('timeout', timeout_ms)
-        s.set('random_seed', seed)
-        s.from_string(text)
-        r = s.check()
-        res = str(r)
-        detail = None
-        if r == z3.unknown:
+        # slow queries are the unstable ones: a few differently seeded attempts before giving up
+        for attempt in range(3):
+            s = z3.Solver()
+            s.set('timeout', timeout_ms)
+            s.set('random_seed', seed + 7919 * attempt)
+            if attempt:
+                s.set('smt.arith.random_initial_value', True)
+            s.from_string(text)
+            r = s.check()
+            res = str(r)
+            detail = None
+            if r != z3.unknown:
+                break
             detail = s.reason_unknown()
     except Exception as e:  # parser / solver error -> undecided, never a verdict
         res, detail = 'error', repr(e)
